@@ -130,7 +130,13 @@ func configView(text []byte) string {
 			sec = append(sec, fmt.Sprintf("listen %d", len(a)))
 		}
 		if iface != nil && listen == nil {
-			addrs = []string{"%" + cast.ToString(iface)}
+			// the alias goes through the same conversion as a scalar listen (a string is split at white space)
+			l := "%" + cast.ToString(iface)
+			a, err := cast.ToStringSliceE(l)
+			if err != nil {
+				a = []string{l}
+			}
+			addrs = a
 		}
 		for _, a := range addrs {
 			sec = append(sec, addrOracle(a))
@@ -285,9 +291,10 @@ func genConfig(c *ctx) {
 		case 2:
 			fmt.Fprintf(&sb, "  listen:\n    - %s\n    - %s\n", q(a()), q(a()))
 		case 3:
-			fmt.Fprintf(&sb, "  interface: %s\n", []string{"lo", "eth0", "'lo:67'", "7"}[c.rng.Intn(4)])
+			// (present-but-empty values too: '' [] {} are a key that is there, ~ is a key that is not)
+			fmt.Fprintf(&sb, "  interface: %s\n", []string{"lo", "eth0", "'lo:67'", "7", "''", "[]", "{}", "~", "' '"}[c.rng.Intn(9)])
 		case 4:
-			fmt.Fprintf(&sb, "  interface: lo\n  listen: %s\n", q(a()))
+			fmt.Fprintf(&sb, "  interface: %s\n  listen: %s\n", []string{"lo", "lo", "''", "[]", "~", "{}"}[c.rng.Intn(6)], q(a()))
 		case 5:
 			fmt.Fprintf(&sb, "  listen: [[a, b]]\n")
 		case 6:
